@@ -78,3 +78,69 @@ theorem order_matters_without_transitivity :
   · decide
 
 end TopSearch.Props.C03Order
+
+/-! ### applied to the model of `test_new_minimum` -/
+namespace TopSearch.Props.C03Order
+open TopSearch TopSearch.Ktn TopSearch.Merge
+
+variable {δ : Type}
+
+/-- what a stream of minimum offers stores comes from the network it started with or from the offers -/
+theorem fold_nodes_subset (same : δ → δ → Bool) (mins : List δ) :
+    ∀ {s : Ktn δ}, GateInv same s → ∀ nd ∈ (mins.foldl (testNewMinimum same) s).nodes,
+      nd ∈ s.nodes ∨ nd.data ∈ mins := by
+  induction mins with
+  | nil => intro s _ nd h; exact Or.inl h
+  | cons d mins ih =>
+    intro s hs nd h
+    simp only [List.foldl_cons] at h
+    obtain ⟨h1, _⟩ := testNewMinimum_spec hs d
+    rcases ih h1 nd h with h' | h'
+    · cases hn : isNewMinimum same s d with
+      | some i =>
+        rw [testNewMinimum_of_some hn] at h'
+        exact Or.inl h'
+      | none =>
+        rw [testNewMinimum_of_none hn, addMin_eq hs.inv] at h'
+        simp only [List.mem_append, List.mem_singleton] at h'
+        rcases h' with h' | h'
+        · exact Or.inl h'
+        · right; rw [h']; exact List.mem_cons_self
+    · exact Or.inr (List.mem_cons_of_mem _ h')
+
+/-- **The number of minima stored by a stream of offers into an empty network does not depend on the
+    order of the offers**, when matching is an equivalence on the offered points: for every permutation
+    `mins₂` of `mins₁` the two networks hold the same number of minima. -/
+theorem stored_count_order_independent (same : δ → δ → Bool) (hsym : ∀ x y, same x y = same y x)
+    (hrefl : ∀ x, same x x = true)
+    (htrans : ∀ x y z, same x y = true → same y z = true → same x z = true)
+    (mins₁ mins₂ : List δ) (hperm : mins₁.Perm mins₂) :
+    ((mins₁.foldl (testNewMinimum same) (empty : Ktn δ)).nodes.map (·.data)).length =
+      ((mins₂.foldl (testNewMinimum same) (empty : Ktn δ)).nodes.map (·.data)).length := by
+  have key : ∀ mins : List δ,
+      let s := (mins.foldl (testNewMinimum same) (empty : Ktn δ)).nodes.map (·.data)
+      s.Pairwise (fun a b => same a b = false) ∧ (∀ x ∈ s, x ∈ mins) ∧
+        (∀ d ∈ mins, ∃ y ∈ s, same d y = true) := by
+    intro mins
+    have hg := (foldMin_spec (same := same) mins (gateInv_empty same)).1
+    refine ⟨?_, ?_, ?_⟩
+    · rw [List.pairwise_map]
+      exact hg.mins.imp (fun {a b} h => by rw [hsym]; exact h)
+    · intro x hx
+      obtain ⟨nd, hnd, rfl⟩ := List.mem_map.1 hx
+      rcases fold_nodes_subset same mins (gateInv_empty same) nd hnd with h | h
+      · simp [empty] at h
+      · exact h
+    · intro d hd
+      obtain ⟨i, x, hx, hd'⟩ := foldMin_rep (same := same) mins (gateInv_empty same) d hd
+      obtain ⟨nd, hnd, _, rfl⟩ := mem_of_nodeData hx
+      refine ⟨nd.data, List.mem_map.2 ⟨nd, hnd, rfl⟩, ?_⟩
+      rcases hd' with h | h
+      · rw [h]; exact hrefl d
+      · exact h
+  obtain ⟨p1, s1, r1⟩ := key mins₁
+  obtain ⟨p2, s2, r2⟩ := key mins₂
+  exact representatives_same_size same hsym htrans mins₁ _ _ p1 p2 s1
+    (fun x hx => hperm.symm.subset (s2 x hx)) r1 (fun d hd => r2 d (hperm.subset hd))
+
+end TopSearch.Props.C03Order
